@@ -16,10 +16,11 @@ RULE = ("E-HIST: breadth-first search over every history of construct/export ope
         "LinearScales with equal-span domains at different offsets, explicit domain; together using every option group - up to depth 8 with one back-end per spec (thorough: both back-ends, 6 specs, depth 7). Every history is replayed from a purged, re-imported library; "
         "states are deduplicated by a fingerprint of the instances AND all labella module/class globals (aliasing included). "
         "Oracle: every export is byte-identical to the export of the same spec alone in a fresh interpreter process. "
-        "Plus every ordered pair of 20 default-scale timelines spanning 40 s .. 15 y anchored around one calendar boundary (all tick units), built one after the other. Non-trivial: an export made after a different spec was constructed or exported since this instance was built.")
+        "Plus every ordered pair of 20 default-scale timelines spanning 40 s .. 15 y anchored around one calendar boundary (all tick units), built one after the other; plus three exports in a row of one default-scale timeline for every data extent start x span (8 starts, thorough 16, x the span ladder 1 s .. 200 y x factors {1, 1.37, 0.73}), each compared with the export of a fresh timeline. Non-trivial: an export made after a different spec was constructed or exported since this instance was built.")
 ASSUMPTIONS = ["reference documents come from fresh subprocesses started by the check (one per spec and back-end)",
                "data and options are deep-copied per construction; caller-side sharing is outside the claim"]
-REQUIRED_COUNTERS = ("exports_checked", "exports_after_other_spec", "repeated_exports", "pair_exports")
+REQUIRED_COUNTERS = ("exports_checked", "exports_after_other_spec", "repeated_exports", "pair_exports", "repeat_exports",
+                     "repeat_extents_a_second_rounding_would_widen")
 
 dt = _dt.datetime
 # Together the specs use every option group (scale default/own, domain, labella, margin, labelPadding, latex, colour lists,
@@ -214,14 +215,78 @@ def pair_references():
     return _pair_refs
 
 
+# ---- repeated exports of one default-scale timeline over a grid of data extents: what an export leaves behind in the
+# timeline's own scale (e.g. a domain rounded once more) shows in the next export, for the extents where it matters
+REPEAT_STARTS = [dt(2020, 1, 1), dt(2020, 2, 29, 12), dt(2020, 12, 31, 23, 59, 30), dt(2021, 3, 14, 2, 30), dt(2019, 6, 15, 8, 45, 10),
+                 dt(2000, 1, 1), dt(1999, 11, 28, 17), dt(1970, 1, 1), dt(1969, 7, 20, 20, 17, 40), dt(1904, 2, 28, 6),
+                 dt(2038, 1, 19, 3, 14, 8), dt(2100, 2, 28, 23, 59, 59), dt(2024, 8, 5), dt(2023, 10, 29, 1, 30), dt(2016, 5, 1), dt(2011, 11, 11, 11, 11, 11)]
+
+
+def repeat_cases(tier):
+    from mc import timegrid
+    spans = [sp for sp in timegrid.SPANS_MS if sp >= 1000]
+    out = []
+    for si, st in enumerate(REPEAT_STARTS if tier == "thorough" else REPEAT_STARTS[::2]):
+        for sp in spans:
+            for f in (1, 1.37, 0.73):  # off-ladder spans: the rounded extent may fall into the next coarser tick interval
+                en = st + _dt.timedelta(milliseconds=int(sp * f))
+                if en.year <= 2200:
+                    out.append((st, en))
+    return out
+
+
+def judge_repeat(st, en, backend, acc=None):
+    from labella.scale import TimeScale
+    from labella.timeline import TimelineSVG, TimelineTex
+    cls = TimelineSVG if backend == "svg" else TimelineTex
+    data = [{"time": st, "width": 40}, {"time": en, "width": 40, "text": "z"}, {"time": st + (en - st) / 3, "width": 40}]
+    try:
+        with horizon(60.0):
+            tl = cls(copy.deepcopy(data), {"direction": "up"})
+            docs = [tl.export() for _ in range(3)]
+            ref = cls(copy.deepcopy(data), {"direction": "up"}).export()
+            if acc is not None:
+                s = TimeScale().domain([st, en]).nice()
+                d1 = s.domain()
+                if s.nice().domain() != d1:
+                    acc.counters["repeat_extents_a_second_rounding_would_widen"] += 1
+                    acc.nontriv += 1
+    except Hang:
+        return "HANG", "three exports of one timeline over [%s, %s] did not return" % (st, en)
+    except Exception as e:
+        return "EXC:" + type(e).__name__, "three exports of one timeline over [%s, %s] raised %r" % (st, en, e)
+    for k, d in enumerate(docs):
+        if d != ref:
+            return ("C10:repeat-export-differs", "data spanning [%s, %s] (%s): export #%d of one timeline differs from the "
+                    "export of a fresh timeline with the same data" % (st, en, backend, k + 1))
+    return None
+
+
 def plan(tier, seed):
     n = len(pair_specs())
-    return [{"kind": "pairs", "first": i} for i in range(n)]
+    return [{"kind": "pairs", "first": i} for i in range(n)] + [{"kind": "repeat", "tier": tier, "mod": 8, "rem": r} for r in range(8)]
 
 
 def run_shard(shard):
     from labella.timeline import TimelineSVG
     acc = Acc()
+    if shard["kind"] == "repeat":
+        case = None
+        for i, (st, en) in enumerate(repeat_cases(shard["tier"])):
+            if i % shard["mod"] != shard["rem"]:
+                continue
+            backend = ("svg", "tex")[(i // shard["mod"]) % 2]
+            case = {"repeat": [st, en], "backend": backend}
+            bad = judge_repeat(st, en, backend, acc)
+            acc.states += 1
+            acc.evals += 4
+            acc.trans += 4
+            acc.counters["repeat_exports"] += 4
+            if bad:
+                acc.violation(case, bad[0], bad[1], order=(1, i))
+        if case:
+            acc.sample(case)
+        return acc
     specs = pair_specs()
     refs = pair_references()
     nx, dx = specs[shard["first"]]
@@ -298,6 +363,8 @@ def hist_expand(ctx, h, acc):
 
 
 def replay(case):
+    if "repeat" in case:
+        return judge_repeat(case["repeat"][0], case["repeat"][1], case["backend"])
     if "pair" in case:
         specs = dict(pair_specs())
         refs = pair_references()
